@@ -8,6 +8,8 @@ def casts_of(b, kinds=("IntToInt", "FloatToInt", "IntToFloat")):
     for i, s in b.stmts():
         rv = s.get("rv", {})
         if rv.get("k") == "cast" and rv["ck"].startswith(kinds):
+            if isinstance(rv.get("op"), dict) and "const" in rv["op"]:
+                continue          # a constant converted at compile time is a constant of the target type, not a conversion of a value
             out[(rv["ck"].split("(")[0], rv["from"], rv["to"])] += 1
     return out
 
@@ -172,3 +174,119 @@ def expected_slots(F, callee_path, width):
     while len(exp) < width:
         exp.append("Null")
     return exp
+
+
+# ------------------------------------------------------------------------------------ rows of primitive calls, invariant under helper extraction
+
+def _split_top(txt):
+    out, depth, cur = [], 0, ""
+    for ch in txt:
+        if ch in "([{":
+            depth += 1
+        elif ch in ")]}":
+            depth -= 1
+        if ch == "," and depth == 0:
+            out.append(cur.strip())
+            cur = ""
+        else:
+            cur += ch
+    if cur.strip():
+        out.append(cur.strip())
+    return out
+
+
+def _subst_params(expr, args):
+    def rep(m):
+        k = int(m.group(1)) - 1
+        return args[k] if k < len(args) else m.group(0)
+    return re.sub(r"\bp(\d+)\b", rep, expr)
+
+
+def normal_row(F, b, dropped, cmp_types=None, depth=0):
+    """{"calls": [...], "casts": [...], "cmp": [...]} of a function in a form that does not change when code moves into one of its closures or
+    into a module-private helper: call expressions of closures (captured values resolved to what was captured) and of private helpers (parameters
+    replaced by the arguments of each call) are folded into the function's own row; the helper call itself disappears."""
+    import mirq
+    q = mirq.BodyQ(b)
+    calls, casts, cmps = [], [], []
+    casts.extend("%s->%s" % (fr, to) for (ck, fr, to), n in casts_of(b).items() for _ in range(n))
+    if cmp_types:
+        cmps.extend("%s %s %d" % (aty, op, c) for (_, op, c, aty, _o) in q.const_compares(include_expansion=False) if aty in cmp_types)
+    caps = {}
+    for i_, st_ in b.stmts():
+        rv_ = st_.get("rv", {})
+        if rv_.get("k") == "agg" and rv_.get("ak") == "closure":
+            caps[str(rv_.get("def") or "").split("::")[-1]] = [mirq.expr_of(q, o_) for o_ in rv_["ops"]]
+    helpers = {}
+    for i_, t_ in b.calls():
+        rid = lib.callee_of(t_)[0]
+        cb = F.bodies.get(rid)
+        if cb is not None and cb.pkg == b.pkg and "{closure" not in cb.path and str(cb.d.get("vis", "")).startswith("Restricted") \
+                and "DefId(0:0 " not in str(cb.d.get("vis", "")) and cb.id != b.id and depth < 3:
+            helpers.setdefault(rid, []).append([mirq.expr_of(q, a_) for a_ in t_.get("args", [])])
+    helper_heads = set(mirq.short_callee(F.bodies[h].path) for h in helpers)
+    for e in mirq.call_exprs(q, drop=None):
+        head = e.split("(", 1)[0]
+        if head in helper_heads:
+            continue
+        calls.append(e)
+    for rid, sites in helpers.items():
+        sub = normal_row(F, F.bodies[rid], dropped, cmp_types, depth + 1)
+        for args in sites:
+            calls.extend(_subst_params(e, args) for e in sub["calls"])
+        casts.extend(sub["casts"])
+        cmps.extend(sub["cmp"])
+    for c in F.closures_of(b):
+        if c.path.count("{closure") != b.path.count("{closure") + 1:
+            continue
+        sub = normal_row(F, c, dropped, cmp_types, depth)
+        cname = c.path.split("::")[-1]
+        cap = caps.get(cname, [])
+
+        def uncapture(e):
+            return re.sub(r"(?:\(\*p1\)|\bp1)\.(\d+)\b", lambda m: cap[int(m.group(1))] if int(m.group(1)) < len(cap) else m.group(0), e)
+        # the closure's own parameters (what a combinator hands it: the payload of a result, an element) are written `_`
+        calls.extend(re.sub(r"\bp[2-9]\b", "_", uncapture(e)) for e in sub["calls"])
+        casts.extend(sub["casts"])
+        cmps.extend(sub["cmp"])
+    calls = [e for e in calls if not dropped(e)]
+    return {"calls": sorted(calls), "casts": sorted(casts), "cmp": sorted(cmps)}
+
+
+def root_bodies(F, bodies):
+    """of the given bodies: those that are neither closures nor module-private helpers called by another of them (their rows are folded into the callers)"""
+    ids = {b.id for b in bodies}
+    called = set()
+    for b in bodies:
+        for i_, t_ in b.calls():
+            rid = lib.callee_of(t_)[0]
+            cb = F.bodies.get(rid)
+            if cb is not None and rid in ids and rid != b.id and str(cb.d.get("vis", "")).startswith("Restricted") and "DefId(0:0 " not in str(cb.d.get("vis", "")):
+                called.add(rid)
+    return [b for b in bodies if "{closure" not in b.path and b.id not in called]
+
+
+def payload_blind(e):
+    """a call expression with every `<call>(..).Ok.0 / .Some.0 / .Continue.0` sub-expression (the payload of an earlier result) written `_`:
+    the same value reaches a callee whether it is matched out of the result by hand or handed over by a combinator's closure"""
+    for _ in range(40):
+        m = re.search(r"\)(\.(?:Ok|Some|Continue)\.0)+", e)
+        if not m:
+            break
+        close = m.start()
+        depth, k = 0, close
+        while k >= 0:
+            if e[k] == ")":
+                depth += 1
+            elif e[k] == "(":
+                depth -= 1
+                if depth == 0:
+                    break
+            k -= 1
+        if k < 0:
+            break
+        k2 = k
+        while k2 > 0 and (e[k2 - 1].isalnum() or e[k2 - 1] in "_:<>&'!"):
+            k2 -= 1
+        e = e[:k2] + "_" + e[m.end():]
+    return re.sub(r"_(\.(?:Ok|Some|Continue)\.0)+", "_", e)
